@@ -679,7 +679,22 @@ func BitsCoord(r *R) float64 {
 func FiniteBitsCoord(r *R) float64 {
 	for {
 		var f float64
-		switch r.Intn(13) {
+		switch r.Intn(14) {
+		case 13:
+			// the doubles within a few ulps (up to 2^20 ulps) of a limit that code likes to test
+			// against: +-180, +-90, +-360, +-1, +-0.5, +-85, +-1e6 - just inside and just outside
+			v := []float64{180, 90, 360, 1, 0.5, 85, 1e6, 100, 1000}[r.Intn(9)] * float64(1-2*r.Intn(2))
+			steps := 1 << uint(r.Intn(21))
+			if r.Bool() {
+				steps = r.IntRange(1, 4)
+			}
+			bits := math.Float64bits(v)
+			if r.Bool() {
+				bits += uint64(steps)
+			} else {
+				bits -= uint64(steps)
+			}
+			f = math.Float64frombits(bits)
 		case 11:
 			// fixed-point data scaled by multiplication (degrees stored as 1e-7 / 1e-6 / 1e-5 units,
 			// millimetres as 1e-3): float64(n)*1e-k is often the NEIGHBOUR of the double nearest
